@@ -128,7 +128,51 @@ func (x *Extractor) genEquals() string {
 		}
 		fmt.Fprintf(&sb, "  { recv := %s, rows := [%s], delegates := %s }%s\n", lstr(strings.TrimSuffix(k, ".Equals")), strings.Join(rows, ", "), lstrList(dels), sep)
 	}
-	sb.WriteString("]\n\nend APModel.Generated\n")
+	sb.WriteString("]\n\n")
+	// where an Equals method hands the comparison over to another Equals method: the static type of the receiver
+	sb.WriteString("/-- (method, the struct whose Equals it calls on a view of one of its arguments) in source order -/\ndef equalsDelegations : List (String × String) := [\n")
+	var dl []string
+	for _, k := range names {
+		fd := x.funcs[k]
+		ast.Inspect(fd.Body, func(n ast.Node) bool {
+			if v, ok := n.(*ast.CallExpr); ok {
+				if sel, ok := v.Fun.(*ast.SelectorExpr); ok && sel.Sel.Name == "Equals" && len(v.Args) == 1 {
+					if id, ok := sel.X.(*ast.Ident); ok {
+						if _, ok := v.Args[0].(*ast.Ident); ok {
+							t := "?"
+							if tv := x.info.TypeOf(id); tv != nil {
+								t = strings.TrimPrefix(strings.TrimPrefix(tv.String(), "*"), "github.com/go-ap/activitypub.")
+							}
+							dl = append(dl, fmt.Sprintf("  (%s, %s)", lstr(strings.TrimSuffix(k, ".Equals")), lstr(t)))
+						}
+					}
+				}
+			}
+			return true
+		})
+	}
+	sb.WriteString(strings.Join(dl, ",\n"))
+	sb.WriteString("\n]\n\n")
+	// ItemsEqual: the Equals methods it runs for two objects, with the conditions in front of each
+	sb.WriteString("/-- the comparisons ItemsEqual runs in its object branch: (helper, the conditions it stands under) -/\ndef itemsEqualCalls : List (String × List String) := [\n")
+	var il []string
+	if fd := x.funcs["ItemsEqual"]; fd != nil && fd.Body != nil {
+		chains := ifChains(fd.Body)
+		ast.Inspect(fd.Body, func(n ast.Node) bool {
+			if v, ok := n.(*ast.CallExpr); ok {
+				if id, ok := v.Fun.(*ast.Ident); ok && strings.HasPrefix(id.Name, "On") && len(v.Args) == 2 {
+					var conds []string
+					for _, c := range chains[v] {
+						conds = append(conds, lstr(x.src(c)))
+					}
+					il = append(il, fmt.Sprintf("  (%s, [%s])", lstr(id.Name), strings.Join(conds, ", ")))
+				}
+			}
+			return true
+		})
+	}
+	sb.WriteString(strings.Join(il, ",\n"))
+	sb.WriteString("\n]\n\nend APModel.Generated\n")
 	return sb.String()
 }
 
